@@ -206,6 +206,8 @@ impl WriteZone {
             .published_versions
             .write()
             .update_current(self.new_version);
+        #[cfg(feature = "verif-hooks")]
+        crate::verif_hooks::pause("zonetree:publish:between-update-and-push");
         self.published_versions
             .write()
             .push_version(self.new_version, marker);
@@ -240,6 +242,8 @@ impl Clone for WriteZone {
 impl Drop for WriteZone {
     fn drop(&mut self) {
         if self.dirty.swap(false, Ordering::SeqCst) {
+            #[cfg(feature = "verif-hooks")]
+            crate::verif_hooks::pause("zonetree:drop:before-rollback");
             self.apex.rollback(self.new_version);
         }
     }
@@ -338,6 +342,8 @@ impl WritableZone for WriteZone {
             }
         }
 
+        #[cfg(feature = "verif-hooks")]
+        crate::verif_hooks::pause("zonetree:commit:before-publish");
         self.publish_new_zone_version();
 
         Box::pin(ready(Ok(out_diff)))
@@ -545,6 +551,8 @@ impl WriteNode {
         }
 
         rrsets.update(new_rrset, self.zone.new_version);
+        #[cfg(feature = "verif-hooks")]
+        crate::verif_hooks::pause("zonetree:update_rrset:after-update");
         self.check_nx_domain()?;
         Ok(())
     }
